@@ -73,7 +73,14 @@ struct KRow {
     const std::type_info* ti;
     Tins::PDU* (*make)();
     Tins::PDU* (*unwrap)(Tins::PDU*);   // the object whose flag the wrapper reports (the object itself if not a wrapper)
+    Tins::PDU* (*from_buf)(const uint8_t*, uint32_t);   // the class's OWN (buffer, size) constructor; 0 if it has none
+    bool defctor;
+    bool (*min_buf)(Bytes&);            // the MinBuf<K> wire image, if the harness has one
 };
+template <class K, int BUF> struct BufMaker { static Tins::PDU* make(const uint8_t*, uint32_t) { return 0; } static const bool has = false; };
+template <class K> struct BufMaker<K, 1> { static Tins::PDU* make(const uint8_t* p, uint32_t n) { return new K(p, n); } static const bool has = true; };
+template <class K, class = void> struct HasMinBuf { static bool get(Bytes&) { return false; } };
+template <class K> struct HasMinBuf<K, decltype(void(MinBuf<K>::get()))> { static bool get(Bytes& b) { b = MinBuf<K>::get(); return true; } };
 template <class K> static Tins::PDU* unwrap_plain(Tins::PDU* p) { return p; }
 template <class X> static Tins::PDU* unwrap_cacher(Tins::PDU* p) { return &static_cast<Tins::PDUCacher<X>*>(p)->cached_; }
 template <class X> static Tins::PDU* make_cacher() { return new Tins::PDUCacher<X>(); }
@@ -81,12 +88,38 @@ template <class X> static Tins::PDU* make_cacher() { return new Tins::PDUCacher<
 static std::vector<KRow> k_rows() {
     std::vector<KRow> v;
 #define TINS_PDU_CONCRETE(Q, ID, DEFCTOR, BUFCTOR) \
-    v.push_back(KRow{short_name(#Q), false, &typeid(Q), &Maker<Q, DEFCTOR, BUFCTOR>::make, &unwrap_plain<Q>});
+    v.push_back(KRow{short_name(#Q), false, &typeid(Q), &Maker<Q, DEFCTOR, BUFCTOR>::make, &unwrap_plain<Q>,           \
+                     BufMaker<Q, BUFCTOR>::has ? &BufMaker<Q, BUFCTOR>::make : 0, DEFCTOR != 0, &HasMinBuf<Q>::get});
 #define TINS_PDU_CACHEABLE(Q, ID) \
-    v.push_back(KRow{"PDUCacher<" + short_name(#Q) + ">", true, &typeid(Tins::PDUCacher<Q>), &make_cacher<Q>, &unwrap_cacher<Q>});
+    v.push_back(KRow{"PDUCacher<" + short_name(#Q) + ">", true, &typeid(Tins::PDUCacher<Q>), &make_cacher<Q>, &unwrap_cacher<Q>, 0, true, 0});
 #include "classes.inc"
 #undef TINS_PDU_CONCRETE
 #undef TINS_PDU_CACHEABLE
+    return v;
+}
+
+// public small-value setters (generated: TINS_PDU_SETTER) -- candidates for steering how an object identifies itself
+struct SRow {
+    std::string kname, sname;   // class of the object, "Declaring::setter"
+    char kind;                  // U integer, B bool, S small_uint<bits>, E enum needing `bits` bits
+    int bits;
+    std::function<void(Tins::PDU*, uint64_t)> apply;
+};
+template <class A> struct ArgOf { static A make(uint64_t v) { return static_cast<A>(v); } };
+template <size_t N> struct ArgOf<Tins::small_uint<N> > {
+    static Tins::small_uint<N> make(uint64_t v) { return Tins::small_uint<N>(static_cast<typename Tins::small_uint<N>::repr_type>(v)); }
+};
+template <class K, class DQ, class A>
+static SRow s_row(const std::string& k, const std::string& n, char kind, int bits, void (DQ::*p)(A)) {
+    typedef typename std::decay<A>::type AT;
+    return SRow{k, n, kind, bits, [p](Tins::PDU* o, uint64_t v) { (static_cast<DQ*>(static_cast<K*>(o))->*p)(ArgOf<AT>::make(v)); }};
+}
+static std::vector<SRow> s_rows() {
+    std::vector<SRow> v;
+#define TINS_PDU_SETTER(Q, ID, DQ, NAME, KIND, BITS) \
+    v.push_back(s_row<Q, DQ>(short_name(#Q), short_name(#DQ) + "::" #NAME, #KIND[0], BITS, &DQ::NAME));
+#include "classes.inc"
+#undef TINS_PDU_SETTER
     return v;
 }
 
@@ -94,6 +127,7 @@ struct Elem { Tins::PDU* p; Tins::PDU* unwrapped; std::string kname; bool wrappe
 struct Chain {
     std::vector<Elem> e;
     std::string spec;   // replayable: K1/K2/...
+    bool lazy = false;  // state sweeps: call the throwing variants only when their non-throwing twin succeeded
 };
 struct Outcome {
     std::vector<std::pair<std::string, std::string> > bad;   // (signature, detail)
@@ -133,7 +167,7 @@ static void check(const Chain& c, const TRow& t, Outcome& out) {
     // The throwing variants are thin wrappers (find_pdu / tins_cast<T*> + throw on null).  Singles and pairs call all seven
     // unconditionally; in chains of three or more they are only called when their non-throwing twin succeeded (otherwise all
     // they would do is throw: ~3 exceptions per evaluation x 10^8 evaluations).
-    const bool all = n < 3;
+    const bool all = n < 3 && !c.lazy;
     r[0] = head->find_pdu<T>();
     r[1] = chead->find_pdu<T>();
     out.calls = 4;
@@ -220,6 +254,7 @@ static int n_classes_total() {
 // ---------------------------------------------------------------- objects
 static std::vector<KRow> KR;
 static std::vector<TRow> TR;
+static std::vector<SRow> SR;
 
 static std::string demangled_class(const Tins::PDU& p) {
     // name of the dynamic class as the table spells it
@@ -250,9 +285,31 @@ static Tins::PDU* build_elem(const std::string& spec, Elem& e) {
         e = Elem{p, p, demangled_class(*p), false};
         return p;
     }
+    // K@b:HEX  = K's own (buffer, size) constructor on that buffer;  K@s:Declaring::setter=V = default K, then that setter
+    size_t at = spec.find('@');
+    std::string kn = at == std::string::npos ? spec : spec.substr(0, at);
     for (auto& k : KR)
-        if (k.name == spec) {
-            Tins::PDU* p = k.make();
+        if (k.name == kn) {
+            Tins::PDU* p = 0;
+            if (at == std::string::npos) p = k.make();
+            else if (spec.compare(at, 3, "@b:") == 0) {
+                if (!k.from_buf) return 0;
+                Bytes b = unhex(spec.substr(at + 3));
+                try { p = k.from_buf(b.data(), (uint32_t)b.size()); } catch (std::exception&) { p = 0; }
+                if (p) p->inner_pdu((Tins::PDU*)0);
+            } else if (spec.compare(at, 3, "@s:") == 0) {
+                size_t eq = spec.rfind('=');
+                if (eq == std::string::npos) return 0;
+                std::string sn = spec.substr(at + 3, eq - at - 3);
+                uint64_t v = strtoull(spec.c_str() + eq + 1, 0, 10);
+                for (auto& sr : SR)
+                    if (sr.kname == kn && sr.sname == sn) {
+                        p = k.make();
+                        try { sr.apply(p, v); } catch (std::exception&) { delete p; p = 0; }
+                        break;
+                    }
+            }
+            if (!p) return 0;
             e = Elem{p, k.unwrap(p), k.name, k.wrapper};
             return p;
         }
@@ -290,6 +347,29 @@ static const int MAX_PAIR_SIGS = 24;
 static std::set<unsigned> g_masks;
 static std::set<std::string> g_base_not_found;   // single objects: 'K as T' where K derives from T yet find_pdu<T> returns null   // distinct outcome vectors seen by this process
 
+// one violation per signature and evaluation, helpers listed in the detail
+static int report_bad(const Outcome& out, const std::string& kase, const std::string& ub, bool verbose) {
+    int nbad = 0;
+    std::map<std::string, std::string> merged;
+    for (auto& b : out.bad) {
+        std::string& d = merged[b.first];
+        d += (d.empty() ? "" : "; ") + b.second;
+    }
+    for (auto& b0 : merged) {
+        std::pair<std::string, std::string> b = b0;
+        // a sweeping defect (e.g. in find_pdu itself) would produce one signature per class pair: keep the first
+        // MAX_PAIR_SIGS of a process apart, fold the rest
+        if (b.first.compare(0, 10, "wrongtype:") == 0 && !R.violations.count(b.first)) {
+            if (g_pair_sigs >= MAX_PAIR_SIGS) b.first = b.first.substr(0, b.first.find(':', 10)) + ":further-class-pairs";
+            else ++g_pair_sigs;
+        }
+        R.violation(b.first, b.second + ub, kase);
+        ++nbad;
+        if (verbose) printf("  %s\n    %s%s\n", b.first.c_str(), b.second.c_str(), ub.c_str());
+    }
+    return nbad;
+}
+
 // evaluate every T on one chain; returns number of violations found
 static int eval_chain(const std::string& spec, const std::string& stage, const std::string* only_t = 0, bool verbose = false) {
     ChainOwner o;
@@ -319,23 +399,7 @@ static int eval_chain(const std::string& spec, const std::string& stage, const s
         }
         std::string ub = Mon::errors ? " [sanitizer: " + Mon::first + " " + Mon::first_detail + "]" : "";
         san += Mon::errors;
-        std::map<std::string, std::string> merged;   // one violation per signature and evaluation, helpers listed in the detail
-        for (auto& b : out.bad) {
-            std::string& d = merged[b.first];
-            d += (d.empty() ? "" : "; ") + b.second;
-        }
-        for (auto& b0 : merged) {
-            std::pair<std::string, std::string> b = b0;
-            // a sweeping defect (e.g. in find_pdu itself) would produce one signature per class pair: keep the first
-            // MAX_PAIR_SIGS of a process apart, fold the rest
-            if (b.first.compare(0, 10, "wrongtype:") == 0 && !R.violations.count(b.first)) {
-                if (g_pair_sigs >= MAX_PAIR_SIGS) b.first = b.first.substr(0, b.first.find(':', 10)) + ":further-class-pairs";
-                else ++g_pair_sigs;
-            }
-            R.violation(b.first, b.second + ub, kase);
-            ++nbad;
-            if (verbose) printf("  %s\n    %s%s\n", b.first.c_str(), b.second.c_str(), ub.c_str());
-        }
+        nbad += report_bad(out, kase, ub, verbose);
         if (out.bad.empty() && Mon::errors) {
             // memory/UB report with no functional symptom: its own finding
             R.violation(Mon::first, Mon::first_detail + " while evaluating " + kase, kase);
@@ -350,6 +414,110 @@ static int eval_chain(const std::string& spec, const std::string& stage, const s
     if (stage == "single") R.count("pairs_K_T", evals);
     if (san) R.count("sanitizer_reports", san);
     return nbad;
+}
+
+// ---------------------------------------------------------------- state sweeps (single objects in non-default states)
+// The same oracle on objects whose STATE is swept, because nothing forces pdu_type()/matches_flag() to be constants:
+//   buffer states: the class's own (buffer, size) constructor on its default wire image (as serialized below an EthernetII),
+//                  the same + 64 zero bytes, 128 zero bytes and the MinBuf image, with the leading bytes swept;
+//   setter states: a default object after ONE call of a public small-value setter (generated table), argument swept.
+// Lazy mode (see check()): one set_case / sanitizer window per object, not per T.
+static std::set<uint64_t> g_state_ids;   // distinct (class, outcome vector over all T): > #classes iff identity depends on state
+
+static int eval_state(Tins::PDU* obj, const KRow& k, const std::string& spec, const std::string& stage, bool verbose = false) {
+    std::unique_ptr<Tins::PDU> own(obj);
+    Chain c;
+    c.e.push_back(Elem{obj, k.unwrap(obj), k.name, k.wrapper});
+    c.spec = spec;
+    c.lazy = true;
+    set_case(g_index, "cast-table:" + stage, "chain=" + spec);
+    Mon::reset();
+    int nbad = 0;
+    uint64_t evals = 0, with_result = 0, calls = 0, id = fnv(k.name);
+    for (auto& t : TR) {
+        Outcome out;
+        t.check(c, t, out);
+        ++evals;
+        calls += (uint64_t)out.calls;
+        id = fnv(&out.mask, sizeof out.mask, id);
+        if (out.any) ++with_result;
+        if (!out.bad.empty()) {
+            std::string ub = Mon::errors ? " [sanitizer: " + Mon::first + " " + Mon::first_detail + "]" : "";
+            nbad += report_bad(out, "chain=" + spec + " t=" + t.name, ub, verbose);
+        }
+    }
+    g_state_ids.insert(id);
+    if (!nbad && Mon::errors) { R.violation(Mon::first, Mon::first_detail + " while evaluating chain=" + spec, "chain=" + spec); ++nbad; }
+    if (Mon::errors) R.count("sanitizer_reports", Mon::errors);
+    R.count("evaluations", evals);
+    R.count("state_evaluations", evals);
+    R.count("helper_calls", calls);
+    R.count("evaluations_with_a_result", with_result);
+    R.count("state_objects");
+    R.count("state_objects_" + stage);
+    return nbad;
+}
+
+static std::vector<uint64_t> setter_values(char kind, int bits, bool thorough) {
+    std::vector<uint64_t> v;
+    std::set<uint64_t> seen;
+    const uint64_t maxv = bits >= 64 ? ~0ULL : ((1ULL << bits) - 1);
+    auto add = [&](uint64_t x) { if (x <= maxv && seen.insert(x).second) v.push_back(x); };
+    const int full = thorough ? 16 : 8;       // domains up to 2^full values are swept completely
+    if (bits <= full) { for (uint64_t x = 0; x <= maxv; ++x) add(x); return v; }
+    for (uint64_t x = 0; x < 256; ++x) add(x);                                  // every low byte
+    for (int sh = 8; sh < bits; sh += 8) for (uint64_t x = 1; x < 256; ++x) add(x << sh);   // every value of every other byte
+    for (int b = 0; b < bits; ++b) { add(1ULL << b); add((1ULL << b) - 1); add(maxv ^ (1ULL << b)); }
+    add(maxv);
+    return v;
+}
+
+struct BufBase { std::string what; Bytes b; };
+static std::vector<BufBase> buffer_bases(const KRow& k, bool thorough) {
+    std::vector<BufBase> v;
+    Bytes wire;
+    if (k.defctor) {
+        try {   // below an EthernetII so that no layer is the root of the packet (a root IP would consult the routing table)
+            Tins::EthernetII eth;
+            eth.inner_pdu(k.make());
+            Bytes all = eth.serialize();
+            if (all.size() > 14) wire.assign(all.begin() + 14, all.end());
+        } catch (std::exception&) { wire.clear(); }
+    }
+    Bytes mb;
+    if (k.min_buf && k.min_buf(mb)) v.push_back(BufBase{"min", mb});
+    if (!wire.empty()) {
+        Bytes padded = wire;
+        padded.insert(padded.end(), 64, 0);
+        v.push_back(BufBase{"default+64", padded});
+        if (thorough) v.push_back(BufBase{"default", wire});
+    }
+    v.push_back(BufBase{"zeros", Bytes(128, 0)});
+    return v;
+}
+
+// enumerate the swept buffers of one base: every single-byte substitution of the leading NPOS bytes, and the grid
+// byte0 (all 256) x byte1 (a boundary set); calls f(buffer)
+template <class F> static void sweep_buffer(const Bytes& base, bool thorough, F f) {
+    static const uint8_t G_QUICK[] = {0x01, 0x02, 0x03, 0x40, 0x80, 0xff};
+    static const uint8_t G_THOROUGH[] = {0x01, 0x02, 0x03, 0x04, 0x07, 0x08, 0x0f, 0x10, 0x1f, 0x20, 0x3f, 0x40, 0x41, 0x42, 0x43, 0x45,
+                                         0x60, 0x7f, 0x80, 0x81, 0x82, 0x83, 0x88, 0xa0, 0xaa, 0xc0, 0xc3, 0xe0, 0xf0, 0xfc, 0xfe, 0xff};
+    const size_t npos = std::min(base.size(), (size_t)(thorough ? 32 : 8));
+    Bytes b = base;
+    f(b);
+    for (size_t pos = 0; pos < npos; ++pos) {
+        for (int x = 0; x < 256; ++x) { if ((uint8_t)x == base[pos]) continue; b[pos] = (uint8_t)x; f(b); }
+        b[pos] = base[pos];
+    }
+    if (base.size() >= 2) {
+        const uint8_t* g = thorough ? G_THOROUGH : G_QUICK;
+        const size_t ng = thorough ? sizeof G_THOROUGH : sizeof G_QUICK;
+        for (size_t j = 0; j < ng; ++j) {
+            if (g[j] == base[1]) continue;
+            b[1] = g[j];
+            for (int x = 0; x < 256; ++x) { if ((uint8_t)x == base[0]) continue; b[0] = (uint8_t)x; f(b); }
+        }
+    }
 }
 
 static std::vector<std::string> base_specs() {
@@ -382,6 +550,7 @@ static const int NJ_QUICK = 16, NJ_THOROUGH = 64;
 static void run_job(int job) {
     KR = k_rows();
     TR = t_rows();
+    SR = s_rows();
     const int nj = A.thorough() ? NJ_THOROUGH : NJ_QUICK;
     std::vector<std::string> base = base_specs(), fac = factory_specs();
     if (job == 0) {
@@ -417,6 +586,49 @@ static void run_job(int job) {
         for (auto& x : g_base_not_found) l += (l.empty() ? "" : ", ") + x;
         R.info["derived_object_not_found_by_base_class_search"] = jstr(l);   // allowed by the statement (soundness only)
     }
+    // stage 1b: state sweeps, spread over all jobs
+    uint64_t rejected = 0, threw = 0, parse_reports = 0, ticks = 0;
+    for (auto& k : KR) {
+        if (!k.from_buf || cut) continue;
+        for (auto& base : buffer_bases(k, A.thorough())) {
+            sweep_buffer(base.b, A.thorough(), [&](const Bytes& b) {
+                uint64_t i = idx++;
+                if (cut || !mine(i)) return;
+                if ((++ticks & 0x3ff) == 0 && deadline_reached()) { cut = true; return; }
+                g_index = i;
+                std::string spec = k.name + "@b:" + hex(b);
+                set_case(i, "cast-table:buffer-construct", "chain=" + spec);
+                Mon::reset();
+                Tins::PDU* p = 0;
+                try { p = k.from_buf(b.data(), (uint32_t)b.size()); } catch (std::exception&) { p = 0; }
+                if (Mon::errors) { parse_reports += Mon::errors; if (Mon::wrote) { ++rejected; return; } }   // parser memory safety is C01's subject
+                if (!p) { ++rejected; return; }
+                p->inner_pdu((Tins::PDU*)0);
+                eval_state(p, k, spec, "buffer");
+            });
+        }
+    }
+    for (auto& sr : SR) {
+        if (cut) break;
+        const KRow* k = 0;
+        for (auto& kr : KR) if (kr.name == sr.kname) k = &kr;
+        if (!k) continue;
+        for (uint64_t v : setter_values(sr.kind, sr.bits, A.thorough())) {
+            uint64_t i = idx++;
+            if (!mine(i)) continue;
+            if ((++ticks & 0x3ff) == 0 && deadline_reached()) { cut = true; break; }
+            g_index = i;
+            std::string spec = k->name + "@s:" + sr.sname + "=" + str(v);
+            set_case(i, "cast-table:setter-call", "chain=" + spec);
+            Tins::PDU* p = k->make();
+            try { sr.apply(p, v); } catch (std::exception&) { delete p; ++threw; continue; }
+            eval_state(p, *k, spec, "setter");
+        }
+    }
+    R.count("buffers_rejected_by_constructor", rejected);
+    R.count("setter_calls_that_threw", threw);
+    if (parse_reports) R.count("sanitizer_reports_inside_buffer_constructors_not_judged_here", parse_reports);
+    if (job == 0) R.count("setters_swept", SR.size());
     // stage 2: every ordered pair of K rows
     for (auto& a : base) {
         if (deadline_reached()) { cut = true; break; }
@@ -434,12 +646,14 @@ static void run_job(int job) {
     }
     if (cut) { R.flags["exhaustive"] = false; R.info["cut"] = jstr("deadline reached before all chains were evaluated"); }
     for (unsigned m : g_masks) R.dist("distinct_outcomes", fnv(str(m)));
+    for (uint64_t h : g_state_ids) R.dist("distinct_state_identities", h);
     R.maxv("max_chain_length", A.thorough() ? 3 : 2);
 }
 
 static int replay(const std::string& kase) {
     KR = k_rows();
     TR = t_rows();
+    SR = s_rows();
     std::string chain, t;
     std::istringstream is(kase);
     std::string tok;
